@@ -9,7 +9,7 @@ RULE = (
     "standalone CsvPath running p_i on a file holding exactly member i-1's lines (composition model), and its manifest's "
     "actual_data_file must name the predecessor's data.csv (members before the suffix: the registered origin file); (refs) after "
     "every history of 1..3 runs of a two-member group on three different files x 3 run methods, a probe csvpath assigns from "
-    "$g.variables.v, .v.key and $h.headers.name and the values must be those the most recent run left (later member wins a shared "
+    "$g.variables.v, .v.key, $h.headers.name and $h3.headers.name.<member> (three-member group one of whose members collected nothing) and the values must be those the most recent run left (later member wins a shared "
     "name); (replay) a results reference used as a file name replays exactly the referenced member's data.csv of the most recent "
     "run, also when the replayed file feeds a chain with source-mode preceding; non-trivial = a stage actually narrowed its input / the history has >=2 runs; state = (stage, input lines) / (history)"
 )
@@ -188,9 +188,11 @@ def run_case(case):
             cp.file_manager.add_named_file(name=f"f{i}", path=sandbox.write_csv(rows))
         cp.paths_manager.add_named_paths(name="R", paths=[R1, R2])
         cp.paths_manager.add_named_paths(name="H", paths=[H1])
+        # a three-member group addressed through the tracking value; the middle member never collects a line
+        cp.paths_manager.add_named_paths(name="H3", paths=[H1, "~ id: hz ~ $[*][no()]", "~ id: ha ~ $[*][yes()]"])
         for fi in hist:
-            for g in ("R", "H"):
-                m = method if not (g == "H" and method == "fast_forward_paths") else "collect_paths"
+            for g in ("R", "H", "H3"):
+                m = method if not (g in ("H", "H3") and method == "fast_forward_paths") else "collect_paths"
                 lines, exc = groups.run_method(cp, m, name=g, fname=f"f{fi}")
                 if exc is not None:
                     bad(f"run of {g} raised", f"{type(exc).__name__}: {str(exc)[:100]}", None, cstr)
@@ -203,10 +205,12 @@ def run_case(case):
             "d": data[-1][0],          # only2 = #0
             "hv": [r[1] for r in data if r[0] == "k"],
             "h0": [r[0] for r in data if r[0] == "k"],
+            "m1": [r[1] for r in data if r[0] == "k"],
+            "m2": [r[0] for r in data],
         }
         probe = cp.csvpath()
         pf = cp.file_manager.get_named_file("f0")
-        text = f"${pf}[1][ @a = $R.variables.v @b = $R.variables.only1 @c = $R.variables.t.k @d = $R.variables.only2 @hv = $H.headers.c1 @h0 = $H.headers.c0 ]"
+        text = f"${pf}[1][ @a = $R.variables.v @b = $R.variables.only1 @c = $R.variables.t.k @d = $R.variables.only2 @hv = $H.headers.c1 @h0 = $H.headers.c0 @m2 = $H3.headers.c0.ha @m1 = $H3.headers.c1.h1 ]"
         got = {}
         try:
             with sandbox.capture_stdout():
@@ -221,12 +225,14 @@ def run_case(case):
             got.pop("hv", None)
             exp.pop("h0")
             got.pop("h0", None)
+            exp.pop("m1")
+            got.pop("m1", None)
             perr = [e for e in perr if "data" not in e[2].lower() and "captured" not in e[2].lower()] if perr else perr
         elif perr:
             bad("probe errors", perr, [], cstr)
         for k in exp:
             if got.get(k) != exp[k]:
-                what = {"a": "$R.variables.v (written by both members)", "b": "$R.variables.only1", "c": "$R.variables.t.k", "d": "$R.variables.only2", "hv": "$H.headers.c1", "h0": "$H.headers.c0 (first header)"}[k]
+                what = {"a": "$R.variables.v (written by both members)", "b": "$R.variables.only1", "c": "$R.variables.t.k", "d": "$R.variables.only2", "hv": "$H.headers.c1", "h0": "$H.headers.c0 (first header)", "m1": "$H3.headers.c1.h1 (member of a 3-member group, one member collected nothing)", "m2": "$H3.headers.c0.ha"}[k]
                 bad(f"{what} is not the value the most recent run left", got.get(k), exp[k], cstr)
         return {"viol": viol, "states": [run.h64((tuple(hist[: i + 1]), method)) for i in range(len(hist))], "transitions": 2 * len(hist) + 1, "nontrivial": len(hist) > 1, "outcome": run.h64(exp), "fingerprint": run.h64((cstr, [v["diverge"] for v in viol]))}
 
